@@ -183,15 +183,17 @@ impl Crossover for Bitstring {
         other: &mut Self,
         range: std::ops::Range<usize>,
     ) -> Result<(), Self::SegmentCrossoverError> {
-        let lhs = &mut self.bits[range.clone()];
-        let rhs = &mut other.bits[range.clone()];
-        if lhs.len() == rhs.len() {
+        let bitstring_size = self.size();
+        if let (Some(lhs), Some(rhs)) = (
+            self.bits.get_mut(range.clone()),
+            other.bits.get_mut(range.clone()),
+        ) {
             lhs.swap_with_slice(rhs);
             Ok(())
         } else {
             Err(GeneAccessRange {
                 range,
-                bitstring_size: self.size(),
+                bitstring_size,
             })
         }
     }
